@@ -2,7 +2,7 @@
    input table.  Property theorems only; each closed with [exact] and followed
    by Print Assumptions.
 
-   "The code as it is" means the CURRENT /repo, which contains all eight repairs:
+   "The code as it is" means the CURRENT /repo, which contains all ten repairs:
      C17-F1 e8c17b3 reorder_columns no longer extends its own column_order
      C17-F2 192568b factor_column works without factor_values / factor_names
      C17-F3 b484e3c merge_consecutive works without match_columns
@@ -11,13 +11,16 @@
      C17-F6 b5c611b merge_consecutive set_durations skips unused group numbers
      C17-F7 6cfe711 remap_columns validation rejects shared/repeated column names
      C17-F8 55a866d no .max() on the scalar anchor extent in set_durations
+     C17-F9 0437d48 remap_columns integer_sources also converts float columns without n/a
+     C17-F10 67be5b4 factor_column does not flag n/a rows for the factor value "nan"
    [fixes] has one boolean per repair that touches modelled behaviour (F1-F4, F6,
-   F7); [all_fixes] IS the current code and PART 1 is stated for it.  [no_fixes]
+   F7, F10); [all_fixes] IS the current code and PART 1 is stated for it.  [no_fixes]
    is the behaviour BEFORE those commits; PART 2 keeps the refutations for it
    only as the record of the repaired defects -- the property is NOT false of
-   the implementation any more.  F5 and F8 are pandas dtype / hash-seed effects
+   the implementation any more.  F5, F8 and F9 are pandas dtype / hash-seed /
+   float64-representation effects
    that the model never contained: they have no switch, no theorem can tell the
-   code before and after those two commits apart, and that they are gone is
+   code before and after those three commits apart, and that they are gone is
    established by testing only (corpus witnesses + every generated case).
 
    [Exn Unmodelled] is not a behaviour of the code but the mark of a run that
@@ -127,8 +130,8 @@ Print Assumptions C17_reorder_columns_cells.
    per value, named as given or <column>.<value>; values default to the distinct
    non-n/a values in order of first appearance.  The result is the input table
    with one appended 0/1 column per value: 1 where the cell, printed as text,
-   equals the value.  (An n/a cell prints as "nan" in the code: it is 0 for
-   every value but the literal "nan"; the documentation is silent on n/a.) ---- *)
+   equals the value; an n/a cell equals no value and is 0 in every factor column
+   (the code as it is, since fix commit 67be5b4). ---- *)
 Theorem C17_factor_column_meaning : forall cn values names t i,
   index_of cn (cols t) = Some i -> wfb t = true ->
   let vs := factor_values_of i values t in
@@ -151,9 +154,14 @@ Theorem C17_factor_new_column : forall i vs ns t k v n,
 Proof. exact factor_spec_new_column. Qed.
 Print Assumptions C17_factor_new_column.
 
-Theorem C17_factor_na_is_zero : forall v, v <> s_nan -> flag v CNa = CNum 0.
+Theorem C17_factor_na_is_zero : forall v, flag v CNa = CNum 0.
 Proof. exact flag_na. Qed.
 Print Assumptions C17_factor_na_is_zero.
+
+Theorem C17_factor_present_cell : forall v c,
+  c <> CNa -> flag v c = if str_eqb (cell_str c) v then CNum 1 else CNum 0.
+Proof. exact flag_present. Qed.
+Print Assumptions C17_factor_present_cell.
 
 (* ---- remap_columns.  Per row (g maps each input row to its output row): source
    cells become text (n/a -> "n/a"); destination cells take the values of the
@@ -532,6 +540,12 @@ Theorem C17_order_independent_refuted :
     /\ is_ok (snd (run_operations no_fixes sts t2)) = true.
 Proof. exact order_independent_refuted. Qed.
 Print Assumptions C17_order_independent_refuted.
+
+(* C17-F10, behaviour before fix commit 67be5b4: the factor value "nan" -- and only that value -- also hit
+   every n/a cell (str(NaN) = "nan") *)
+Theorem C17_record_factor_nan_before_67be5b4 : forall v, factor_hit no_fixes v CNa = true <-> v = s_nan.
+Proof. exact factor_hit_na_before_67be5b4. Qed.
+Print Assumptions C17_record_factor_nan_before_67be5b4.
 
 (* C17-F7, behaviour before fix commit 6cfe711: a validated remap_columns list made the constructor raise
    (third conjunct: the current code reports it with a message) *)
